@@ -22,6 +22,35 @@ CLAIMED = {
         design='DESIGN.md section 4, C03'),
 }
 
+CLAIMED.update({
+    'C14': dict(
+        category='other',
+        technique='copy-completeness / purity / freshness rules over the CFG and def-use of __deepcopy__ (ast)',
+        text=("Decides the whole mechanism the statement rests on: XMLElement.__deepcopy__ passes the current value and the current xsd_check to "
+              "the constructor, gives the copy a fresh copy of the current attribute dictionary on every path, deep-copies and re-adds every child "
+              "unconditionally, stores nothing into the source and binds no field of the copy to an object of the source."),
+        note="Does not decide that re-adding the children in schema order is accepted by the matcher (C02), nor isolation through shared class-level state (C13).",
+        design='DESIGN.md section 4, C14'),
+    'C17': dict(
+        category='other',
+        technique='CFG ordering rule (open-after-validate) + encoding discipline over every open() of the import closure (ast, call graph)',
+        text=("Decides, on every path of every function of the runtime closure that opens a file for writing, that nothing whose call closure reaches the "
+              "final checks or the ElementTree construction/serialisation runs after the open, that only constants and values computed before the open are "
+              "written, that the written text is the XML declaration followed by exactly to_string(intelligent_choice), and that every file-opening call of "
+              "the closure (schema files at import, parser input, write) is binary or names its encoding, equal to the declared one for write()."),
+        note="Partial writes caused by the operating system after the text exists are outside the statement. ElementTree's own decoding of binary input is trusted.",
+        design='DESIGN.md section 4, C17'),
+    'C18': dict(
+        category='other',
+        technique='CFG reachability under the branch assumption self.xsd_check=False (guard dominance) + escaping-exception summaries',
+        text=("Decides for add_child, remove, replace_child, get_children, _final_checks, to_string: with the element's own flag off no statement that touches "
+              "matcher state, raises a structural exception or calls something that can let one escape is reachable; the unchecked get_children returns the "
+              "insertion list; _final_checks consults only the element's own flag, does nothing but recurse when it is off, recurses into all children under both "
+              "settings, and performs its three checks exactly when it is on; the shared bookkeeping of add_child happens under both settings."),
+        note="Does not decide byte-identity with the checked build for schema-valid orders (needs the matcher, C02).",
+        design='DESIGN.md section 4, C18'),
+})
+
 NOT_APPLICABLE = {
     'C02': "Acceptance and order preservation for every word of 94 regular languages is the run-time behaviour of a heuristic matcher (first-fit leaf choice, choice commitment, duplication) on a mutable tree; no structural rule bounds the reachable tree states, and running the matcher (concretely or symbolically) is a different technique family. The one structural by-product (an unimplemented branch reachable from a valid word) is reported under C19.",
     'C07': "'Every accepted state has a completion' is an existential claim per reachable matcher state; the reachable states are defined by execution histories, not by the shape of the code. The rejection points that exist are covered as ordering/atomicity obligations of C01/C10, which is not a verdict on C07.",
